@@ -36,6 +36,10 @@ Context::Context(const Context &other)
 {
     copyPtrVector(other.variables, variables, this);
     copyPtrVector(other.arrays, arrays);
+    for (size_t i = 0; i < arrays.size(); i++) {
+        arrays[i]->init(*this);
+        arrays[i]->copyData(*other.arrays[i]);
+    }
     copyPtrVector(other.procedures, procedures);
     copyPtrVector(other.functions, functions);
 }
@@ -43,6 +47,9 @@ Context::Context(const Context &other)
 void Context::copyVariableData(const Context &other) {
     for (size_t i = 0; i < variables.size(); i++) {
         variables[i]->set(&other.variables[i]->get<Value>(), true);
+    }
+    for (size_t i = 0; i < arrays.size() && i < other.arrays.size(); i++) {
+        arrays[i]->copyData(*other.arrays[i]);
     }
 }
 
